@@ -28,7 +28,7 @@ structure Inv (s : St) : Prop where
   view_snap : ∀ v, s.view = some v → ∃ sn, s.snapshot = some sn
   accel : s.accelerate = true → ∃ sn, s.snapshot = some sn ∧ s.tver ≤ sn.ver
   div : s.repaired = true → ∀ sn v, s.snapshot = some sn → s.view = some v →
-    sn.content ≠ v.content → s.strobed = true
+    sn.content ≠ v.content → s.strobed = true ∨ s.owed = true
   strobed_ok : s.strobed = true → s.pending = true ∨ s.consumed = true
 
 theorem inv_init (r a : Bool) (d : Nat) : Inv (init r a d) := by
@@ -60,7 +60,7 @@ def tickCore (s : St) : St :=
   { s with first := false, snapshot := some ⟨s.disk, s.ver⟩, accelerate := s.allowed, previous := s.disk }
 
 theorem tick_eq (s : St) :
-    tick s = if s.disk ≠ tickBaseline s ∧ tickIgnore s = false then strobe (tickCore s) else tickCore s := rfl
+    tick s = if s.disk ≠ tickBaseline s ∧ tickIgnore s = false then owe (tickCore s) else tickCore s := rfl
 
 theorem inv_tick {s : St} (h : Inv s) : Inv (tick s) := by
   rw [tick_eq]
@@ -68,7 +68,7 @@ theorem inv_tick {s : St} (h : Inv s) : Inv (tick s) := by
   · constructor
     · exact h.tver_le
     · intro sn hs
-      simp [strobe, tickCore] at hs
+      simp [owe, tickCore] at hs
       subst hs
       exact ⟨Nat.le_refl _, contentAt_now s⟩
     · exact h.view_ok
@@ -77,9 +77,8 @@ theorem inv_tick {s : St} (h : Inv s) : Inv (tick s) := by
     · intro _
       exact ⟨⟨s.disk, s.ver⟩, rfl, h.tver_le⟩
     · intro _ sn v _ _ _
-      rfl
-    · intro _
-      left; rfl
+      exact Or.inr rfl
+    · exact h.strobed_ok
   · rename_i hc
     constructor
     · exact h.tver_le
@@ -104,9 +103,15 @@ theorem inv_tick {s : St} (h : Inv s) : Inv (tick s) := by
         by_cases hd : s.disk = tickBaseline s
         · rw [hd, hb]
         · exact absurd ⟨hd, hi⟩ hc
-      show s.strobed = true
       exact h.div hr' sn0 v hsn hv' (by rw [← hd]; exact hne)
     · exact h.strobed_ok
+
+theorem inv_deliver {s : St} (h : Inv s) : Inv (deliver s) := by
+  unfold deliver
+  split
+  · exact ⟨h.tver_le, h.snap_ok, h.view_ok, h.view_snap, h.accel, fun _ _ _ _ _ _ => Or.inl rfl,
+      fun _ => Or.inl rfl⟩
+  · exact h
 
 theorem scan_accel {s : St} {full : Bool} {sn : Snap} (h1 : s.accelerate = true) (h2 : full = false)
     (hsn : s.snapshot = some sn) :
@@ -215,7 +220,7 @@ theorem inv_transFinish {s : St} (made : Bool) (h : Inv s) : Inv (transFinish s 
       · intro hx
         simp at hx
       · intro _ _ _ _ _ _
-        rfl
+        exact Or.inl rfl
       · intro _
         left; rfl
     · simp [ha, strobe]
@@ -227,7 +232,7 @@ theorem inv_transFinish {s : St} (made : Bool) (h : Inv s) : Inv (transFinish s 
       · intro hx
         simp at hx
       · intro _ _ _ _ _ _
-        rfl
+        exact Or.inl rfl
       · intro _
         left; rfl
 
@@ -237,9 +242,9 @@ theorem inv_transEnd {s s' : St} {made : Bool} {olds results : List (Option Ent)
   exact inv_transFinish made h
 
 theorem inv_tickFail {s : St} (h : Inv s) : Inv (tickFail s) := by
-  unfold tickFail strobe
-  exact ⟨h.tver_le, h.snap_ok, h.view_ok, h.view_snap, by intro hx; simp at hx, fun _ _ _ _ _ _ => rfl,
-    fun _ => Or.inl rfl⟩
+  unfold tickFail owe
+  exact ⟨h.tver_le, h.snap_ok, h.view_ok, h.view_snap, by intro hx; simp at hx, fun _ _ _ _ _ _ => Or.inr rfl,
+    h.strobed_ok⟩
 
 theorem inv_poll {s s' : St} (h : Inv s) (hs : pollReturn s = some s') : Inv s' := by
   unfold pollReturn at hs
@@ -254,6 +259,7 @@ theorem inv_step {s s' : St} {l : Label} (h : Inv s) (st : Step s l s') : Inv s'
   | .tick _ _ => exact inv_tick h
   | .tickFail _ _ => exact inv_tickFail h
   | .setBroken _ b => exact ⟨h.tver_le, h.snap_ok, h.view_ok, h.view_snap, h.accel, h.div, h.strobed_ok⟩
+  | .deliver _ => exact inv_deliver h
   | .scan _ full _ _ => exact inv_scan full h
   | .transBegin _ c _ hs => exact inv_transBegin c h hs
   | .transApply _ _ hs => exact inv_transApply h hs
@@ -271,9 +277,10 @@ theorem inv_run {s s' : St} {tr : List Label} (h : Inv s) (r : Run s tr s') : In
 theorem ver_step {s s' : St} {l : Label} (st : Step s l s') : s.ver ≤ s'.ver := by
   match st with
   | .tick _ _ =>
-    rw [tick_eq]; split <;> simp [strobe, tickCore, St.ver]
-  | .tickFail _ _ => simp [tickFail, strobe, St.ver]
+    rw [tick_eq]; split <;> simp [owe, tickCore, St.ver]
+  | .tickFail _ _ => simp [tickFail, owe, St.ver]
   | .setBroken _ b => simp [St.ver]
+  | .deliver _ => unfold deliver; split <;> simp [strobe, St.ver]
   | .scan _ full _ _ =>
     by_cases hacc : s.accelerate = true ∧ full = false
     · cases hsn : s.snapshot with
@@ -306,9 +313,10 @@ theorem ver_step {s s' : St} {l : Label} (st : Step s l s') : s.ver ≤ s'.ver :
 theorem tver_step {s s' : St} {l : Label} (h : Inv s) (st : Step s l s') : s.tver ≤ s'.tver := by
   match st with
   | .tick _ _ =>
-    rw [tick_eq]; split <;> simp [strobe, tickCore]
-  | .tickFail _ _ => simp [tickFail, strobe]
+    rw [tick_eq]; split <;> simp [owe, tickCore]
+  | .tickFail _ _ => simp [tickFail, owe]
   | .setBroken _ b => simp
+  | .deliver _ => unfold deliver; split <;> simp [strobe]
   | .scan _ full _ _ =>
     by_cases hacc : s.accelerate = true ∧ full = false
     · cases hsn : s.snapshot with
@@ -352,9 +360,10 @@ theorem transEnd_true_tver {s s' : St} {olds results : List (Option Ent)}
 
 theorem repaired_step {s s' : St} {l : Label} (st : Step s l s') : s'.repaired = s.repaired := by
   match st with
-  | .tick _ _ => rw [tick_eq]; split <;> simp [strobe, tickCore]
-  | .tickFail _ _ => simp [tickFail, strobe]
+  | .tick _ _ => rw [tick_eq]; split <;> simp [owe, tickCore]
+  | .tickFail _ _ => simp [tickFail, owe]
   | .setBroken _ b => rfl
+  | .deliver _ => unfold deliver; split <;> simp [strobe]
   | .scan _ full _ _ =>
     by_cases hacc : s.accelerate = true ∧ full = false
     · cases hsn : s.snapshot with
